@@ -18,8 +18,8 @@ type Solver struct {
 	cmd      *exec.Cmd
 	in       io.WriteCloser
 	out      *bufio.Reader
-	defined  map[string]bool
-	declared map[string]bool
+	defined  map[string]int // name -> assertion-stack level at which it was defined
+	declared map[string]int
 	stack    []string // hnames / refs of asserted pc conjuncts, one push level each
 	queries  int
 	timeS    float64
@@ -27,6 +27,7 @@ type Solver struct {
 	timeout  int
 	unknowns int
 	dumpN    int
+	valueS   float64
 	errors   int
 	buf      strings.Builder
 }
@@ -66,8 +67,7 @@ func NewSolver(kind string, timeoutMS int) (*Solver, error) {
 	if err := cmd.Start(); err != nil {
 		return nil, err
 	}
-	s := &Solver{cmd: cmd, in: in, out: bufio.NewReaderSize(out, 1<<16), defined: map[string]bool{}, declared: map[string]bool{}, kind: kind, timeout: timeoutMS}
-	s.send("(set-option :global-declarations true)\n")
+	s := &Solver{cmd: cmd, in: in, out: bufio.NewReaderSize(out, 1<<16), defined: map[string]int{}, declared: map[string]int{}, kind: kind, timeout: timeoutMS}
 	if kind == "cvc5" {
 		s.send("(set-logic QF_BV)\n")
 	}
@@ -85,8 +85,19 @@ func (s *Solver) Close() {
 }
 
 func (s *Solver) send(str string) {
+	if smtLog != nil {
+		smtLog.WriteString(str)
+	}
 	io.WriteString(s.in, str)
 }
+
+var smtLog = func() *os.File {
+	if p := os.Getenv("VERIF_SMTLOG"); p != "" {
+		f, _ := os.Create(p)
+		return f
+	}
+	return nil
+}()
 
 // define emits definitions for t and everything below it (iteratively, to avoid deep recursion).
 func (s *Solver) define(t *Term) {
@@ -106,18 +117,18 @@ func (s *Solver) define(t *Term) {
 			continue
 		}
 		if x.op == OpSym {
-			if !s.declared[x.name] {
-				s.declared[x.name] = true
+			if _, ok := s.declared[x.name]; !ok {
+				s.declared[x.name] = len(s.stack)
 				fmt.Fprintf(&s.buf, "(declare-const %s %s)\n", symSMTName(x.name), sortOf(x.w))
 			}
 			continue
 		}
 		hn := x.hname()
-		if s.defined[hn] {
+		if _, ok := s.defined[hn]; ok {
 			continue
 		}
 		if it.done {
-			s.defined[hn] = true
+			s.defined[hn] = len(s.stack)
 			fmt.Fprintf(&s.buf, "(define-fun %s () %s %s)\n", hn, sortOf(x.w), x.body())
 			continue
 		}
@@ -146,11 +157,22 @@ func (s *Solver) SyncPC(pc []*Term) {
 	if n < len(s.stack) {
 		fmt.Fprintf(&s.buf, "(pop %d)\n", len(s.stack)-n)
 		s.stack = s.stack[:n]
+		for k, l := range s.defined {
+			if l > n {
+				delete(s.defined, k)
+			}
+		}
+		for k, l := range s.declared {
+			if l > n {
+				delete(s.declared, k)
+			}
+		}
 	}
 	for _, t := range pc[n:] {
-		s.define(t)
-		fmt.Fprintf(&s.buf, "(push 1)\n(assert %s)\n", t.ref())
+		s.buf.WriteString("(push 1)\n")
 		s.stack = append(s.stack, t.ref())
+		s.define(t)
+		fmt.Fprintf(&s.buf, "(assert %s)\n", t.ref())
 	}
 }
 
@@ -225,7 +247,7 @@ func (s *Solver) Model(syms map[string]uint8) map[string]uint64 {
 	}
 	var names []string
 	for n := range syms {
-		if s.declared[n] {
+		if _, ok := s.declared[n]; ok {
 			names = append(names, n)
 		}
 	}
@@ -378,6 +400,8 @@ func (s *Solver) Value(t *Term) (uint64, bool) {
 	if t.IsConst() {
 		return t.k, true
 	}
+	t0 := time.Now()
+	defer func() { s.timeS += time.Since(t0).Seconds(); s.valueS += time.Since(t0).Seconds() }()
 	s.define(t)
 	s.flush()
 	s.send("(get-value (" + t.ref() + "))\n")
